@@ -107,8 +107,15 @@ func (p *Parser) encodeString(header *parser.PacketHeader, v any) ([]byte, error
 }
 
 func (p *Parser) encodeBinary(header *parser.PacketHeader, v any) (buffers [][]byte, err error) {
+	// The values are deconstructed in place: every `Binary` is replaced by its placeholder.
+	// This is done on a copy. The values belong to the caller, who may emit them once more
+	// (they could not be encoded a second time), or have them emitted by another goroutine
+	// at this very moment. The bytes of the `Binary` values themselves are not copied.
+	rv := deepCopy(reflect.ValueOf(v))
+	v = rv.Interface()
+
 	numBuffers := 0
-	buffers, err = p.deconstructPacket(reflect.ValueOf(v), &numBuffers)
+	buffers, err = p.deconstructPacket(rv, &numBuffers)
 	if err != nil {
 		return nil, err
 	}
@@ -130,4 +137,61 @@ func (p *Parser) encodeBinary(header *parser.PacketHeader, v any) (buffers [][]b
 
 	buffers = append([][]byte{s}, buffers...)
 	return
+}
+
+// deepCopy copies the containers of a value tree (pointers, interfaces, slices, arrays, maps,
+// structs). Byte slices and everything that is not a container are taken over as they are.
+func deepCopy(rv reflect.Value) reflect.Value {
+	switch rv.Kind() {
+	case reflect.Ptr:
+		if rv.IsNil() {
+			return rv
+		}
+		n := reflect.New(rv.Type().Elem())
+		n.Elem().Set(deepCopy(rv.Elem()))
+		return n
+	case reflect.Interface:
+		if rv.IsNil() {
+			return rv
+		}
+		n := reflect.New(rv.Type()).Elem()
+		n.Set(deepCopy(rv.Elem()))
+		return n
+	case reflect.Slice:
+		if rv.IsNil() || rv.Type().Elem().Kind() == reflect.Uint8 {
+			return rv
+		}
+		n := reflect.MakeSlice(rv.Type(), rv.Len(), rv.Len())
+		for i := 0; i < rv.Len(); i++ {
+			n.Index(i).Set(deepCopy(rv.Index(i)))
+		}
+		return n
+	case reflect.Array:
+		n := reflect.New(rv.Type()).Elem()
+		for i := 0; i < rv.Len(); i++ {
+			n.Index(i).Set(deepCopy(rv.Index(i)))
+		}
+		return n
+	case reflect.Map:
+		if rv.IsNil() {
+			return rv
+		}
+		n := reflect.MakeMapWithSize(rv.Type(), rv.Len())
+		iter := rv.MapRange()
+		for iter.Next() {
+			n.SetMapIndex(iter.Key(), deepCopy(iter.Value()))
+		}
+		return n
+	case reflect.Struct:
+		n := reflect.New(rv.Type()).Elem()
+		// Unexported fields are taken over as they are (they are not encoded anyway).
+		n.Set(rv)
+		for i := 0; i < n.NumField(); i++ {
+			if f := n.Field(i); f.CanSet() {
+				f.Set(deepCopy(rv.Field(i)))
+			}
+		}
+		return n
+	}
+	return rv
 }
